@@ -55,6 +55,7 @@ def install(w):
         c = it.c
         r = c.fresh_ref('stripped', 'str', distinct=False)
         c.assume(z3.And(r.e != NONE, sval(r.e) == strip_f(sval(c.to_ref(obj)))))
+        c.assume(strip_f(sval(r.e)) == sval(r.e))        # str.strip is idempotent
         return r
 
     def slen(it, v):
